@@ -56,7 +56,8 @@ Proof.
 Qed.
 
 Definition ext (k k' : coll) : Prop :=
-  k_key k' = k_key k /\ k_path k' = k_path k /\ k_pkg k' = k_pkg k /\ k_pkgname k' = k_pkgname k /\
+  k_key k' = k_key k /\ k_path k' = k_path k /\ k_pkg k' = k_pkg k /\ k_first k' = k_first k /\
+  k_pkgname k' = k_pkgname k /\
   k_template k' = k_template k /\ incl (k_reqs k) (k_reqs k').
 Lemma ext_refl k : ext k k.
 Proof. repeat split; auto. apply incl_refl. Qed.
@@ -95,8 +96,8 @@ Qed.
 Lemma add_req_inv m p q m' :
   add_req m p q = Some m' ->
   forall x k', find_coll m' x = Some k' ->
-  (exists k, find_coll m x = Some k /\ k_pkg k' = k_pkg k /\ k_path k' = k_path k) \/
-  (x = q_key q /\ k_pkg k' = p /\ k_path k' = q_path q).
+  (exists k, find_coll m x = Some k /\ k_pkg k' = k_pkg k /\ k_path k' = k_path k /\ k_first k' = k_first k) \/
+  (x = q_key q /\ k_pkg k' = p /\ k_path k' = q_path q /\ k_first k' = q).
 Proof.
   revert m'; induction m as [|k0 t IH]; intros m' H x k' Hf; simpl in *.
   - injection H as <-. simpl in Hf. destruct (seqb (q_key q) x) eqn:E; [|discriminate].
@@ -104,33 +105,33 @@ Proof.
   - destruct (seqb (k_key k0) (q_key q)) eqn:E.
     + destruct (same_group k0 p q); [|discriminate]. injection H as <-. simpl in Hf.
       destruct (seqb (k_key k0) x) eqn:E2.
-      * injection Hf as <-. left. eexists. split; [reflexivity|]. split; reflexivity.
+      * injection Hf as <-. left. eexists. split; [reflexivity|]. repeat split; reflexivity.
       * left. eauto.
     + destruct (add_req t p q) as [t'|] eqn:A; [|discriminate]. simpl in H. injection H as <-.
       simpl in Hf. destruct (seqb (k_key k0) x) eqn:E2.
-      * injection Hf as <-. left. eauto.
+      * injection Hf as <-. left. eauto 6.
       * eapply IH; eauto.
 Qed.
 
 (* every group comes from a selected request of its package: its key and its file *)
 Definition Sound (S : list (package * request)) (m : list coll) : Prop :=
   forall x k, find_coll m x = Some k ->
-  exists q, In (k_pkg k, q) S /\ q_key q = x /\ q_path q = k_path k.
+  In (k_pkg k, k_first k) S /\ q_key (k_first k) = x /\ q_path (k_first k) = k_path k.
 (* every processed request sits in the group of its key and agrees with it *)
 Definition Complete (S : list (package * request)) (m : list coll) : Prop :=
   forall p q, In (p, q) S ->
   exists k, find_coll m (q_key q) = Some k /\ In q (k_reqs k) /\ same_group k p q = true.
 
 Lemma same_group_ext k k' p q : ext k k' -> same_group k' p q = same_group k p q.
-Proof. intros (_ & _ & E1 & E2 & E3 & _). unfold same_group. now rewrite E1, E2, E3. Qed.
+Proof. intros (_ & _ & E1 & _ & E2 & E3 & _). unfold same_group. now rewrite E1, E2, E3. Qed.
 
 Lemma add_req_sound S m p q m' :
   add_req m p q = Some m' -> In (p, q) S -> Sound S m -> Sound S m'.
 Proof.
   intros A Hin Hs x k' Hf.
-  destruct (add_req_inv _ _ _ _ A _ _ Hf) as [(k & Hk & E & E') | (-> & E & E')].
-  - rewrite E, E'. eauto.
-  - rewrite E, E'. eauto.
+  destruct (add_req_inv _ _ _ _ A _ _ Hf) as [(k & Hk & E & E' & E'') | (-> & E & E' & E'')].
+  - rewrite E, E', E''. now apply Hs.
+  - rewrite E, E', E''. auto.
 Qed.
 
 Lemma add_req_complete S m p q m' :
@@ -140,7 +141,7 @@ Proof.
   - destruct (Hc _ _ Hin) as (k & Hk & Hq & G).
     destruct (add_req_old _ _ _ _ A _ _ Hk) as (k' & Hk' & X).
     exists k'. split; [exact Hk'|]. split.
-    + destruct X as (_ & _ & _ & _ & _ & I). now apply I.
+    + destruct X as (_ & _ & _ & _ & _ & _ & I). now apply I.
     + now rewrite (same_group_ext _ _ _ _ X).
   - injection E as <- <-. now apply add_req_new with (m := m).
 Qed.
@@ -286,7 +287,7 @@ Lemma gen_step w f k r f' :
   forall q,
     R (k_path k) f f' q \/
     (q = k_path k /\ r = FOk /\ f' q = Some (File (w_content w (k_key k))) /\ written_ok w k /\
-     (f q = None \/ ((exists c, f q = Some (File c)) /\ c_force (p_cfg (k_pkg k)) = true))).
+     (f q = None \/ ((exists c, f q = Some (File c)) /\ q_force (k_first k) = true))).
 Proof.
   unfold gen_file. intros H q.
   destruct (tstatus_ok (c_tstatus (p_cfg (k_pkg k)))) eqn:T; simpl in H;
@@ -301,7 +302,7 @@ Proof.
   pose proof (mkdir_parent_spec _ _ _ _ _ M2) as R2.
   assert (R12 : forall q, R (k_path k) f f2 q) by (intros q0; eapply R_trans; [apply R1 | apply R2]).
   destruct ok2; simpl in H; [|injection H as _ <-; left; apply R12].
-  destruct (exists_ f2 (k_path k) && negb (c_force (p_cfg (k_pkg k)))) eqn:EX;
+  destruct (exists_ f2 (k_path k) && negb (q_force (k_first k))) eqn:EX;
     [injection H as _ <-; left; apply R12|].
   destruct (write_file (w_ro w) f2 (k_path k) (w_content w (k_key k))) as [f3|] eqn:W;
     [|injection H as _ <-; left; apply R12].
@@ -329,7 +330,7 @@ Proof.
   destruct (pure_failure w k) eqn:PF; [discriminate|].
   destruct (mkdir_all (w_ro w) f1 (parent (k_path k))) as [ok2 f2].
   destruct ok2; simpl in H; [|discriminate].
-  destruct (exists_ f2 (k_path k) && negb (c_force (p_cfg (k_pkg k)))); [discriminate|].
+  destruct (exists_ f2 (k_path k) && negb (q_force (k_first k))); [discriminate|].
   destruct (write_file (w_ro w) f2 (k_path k) (w_content w (k_key k))) as [f3|] eqn:W; [|discriminate].
   injection H as <-. apply write_file_spec in W. destruct W as [-> _].
   split; [split; auto|]. split; [reflexivity | apply upd_same].
@@ -346,13 +347,13 @@ Proof.
   destruct (pure_failure w k); [discriminate|].
   destruct (mkdir_all (w_ro w) f1 (parent (k_path k))) as [ok2 f2].
   destruct ok2; simpl in H; [|discriminate].
-  destruct (exists_ f2 (k_path k) && negb (c_force (p_cfg (k_pkg k)))); [discriminate|].
+  destruct (exists_ f2 (k_path k) && negb (q_force (k_first k))); [discriminate|].
   destruct (write_file (w_ro w) f2 (k_path k) (w_content w (k_key k))); discriminate.
 Qed.
 
 (* an occupied path without force-file-write makes the file fail *)
 Lemma gen_exists_noforce w f k n r f' :
-  f (k_path k) = Some n -> c_force (p_cfg (k_pkg k)) = false ->
+  f (k_path k) = Some n -> q_force (k_first k) = false ->
   gen_file w f k = (r, f') -> r <> FOk.
 Proof.
   intros Hn Hf H. unfold gen_file in H.
@@ -378,7 +379,7 @@ Definition Inv (w : world) (m : list coll) (f0 f : fs) : Prop := forall q,
       exists x k, find_coll m x = Some k /\ strict_prefix q (k_path k) = true)
   \/ (exists x k, find_coll m x = Some k /\ k_path k = q /\
         f q = Some (File (w_content w x)) /\ written_ok w k /\
-        (f0 q = None \/ ((exists c, f0 q = Some (File c)) /\ c_force (p_cfg (k_pkg k)) = true))).
+        (f0 q = None \/ ((exists c, f0 q = Some (File c)) /\ q_force (k_first k) = true))).
 
 Lemma Inv_refl w m f0 : Inv w m f0 f0.
 Proof. intros q. now left. Qed.
@@ -506,8 +507,8 @@ Lemma sound_out w m x k :
   In (k_path k) (out_paths w) /\ has_files (k_pkg k) = true /\ In (k_pkg k) (w_pkgs w) /\
   exists q, In (k_pkg k, q) (selected_reqs w) /\ q_key q = x /\ q_path q = k_path k.
 Proof.
-  intros G Hk. destruct (g_sound _ _ G _ _ Hk) as (q & Hq & Ek & Ep).
-  split; [unfold out_paths; apply in_map_iff; exists (k_pkg k, q); auto|].
+  intros G Hk. destruct (g_sound _ _ G _ _ Hk) as (Hq & Ek & Ep).
+  split; [unfold out_paths; apply in_map_iff; exists (k_pkg k, k_first k); auto|].
   pose proof (selected_In _ _ _ Hq) as (A & B & _). repeat split; auto. eauto.
 Qed.
 
@@ -597,14 +598,25 @@ Proof.
   pose proof (collections_grouped _ _ Co) as G.
   (* for the classes decided in the loop: the file of the request is visited and succeeds *)
   assert (Vis : needs_visit c = true -> forall p q, In (p, q) (selected_reqs w) ->
-          exists k, In q (k_reqs k) /\ k_pkg k = p /\ k_key k = q_key q /\ written_ok w k).
+          exists k, In q (k_reqs k) /\ k_pkg k = p /\ find_coll m (q_key q) = Some k /\
+                    k_template k = q_template q /\ written_ok w k).
   { intros NV p q Hin. destruct (HV NV) as [W Hord].
-    destruct (group_of _ _ _ _ W G Hin) as (k & Hk & Hq & Ep & _).
+    destruct (group_of _ _ _ _ W G Hin) as (k & Hk & Hq & Ep & _ & Et).
     assert (Ho : In (q_key q) ord).
     { apply Hord. unfold out_keys. apply in_map_iff. exists (p, q). auto. }
     destruct (loop_ok_visited _ _ _ _ _ _ _ L Ho Hk) as (WO & _).
-    exists k. split; [exact Hq|]. split; [exact Ep|].
-    split; [eapply find_coll_key; eauto | exact WO]. }
+    exists k. auto. }
+  (* ... and the file of a governing request *)
+  assert (VisG : needs_visit c = true -> forall x g, file_gov w x = Some g ->
+          exists k, find_coll m x = Some k /\ k_first k = g /\ written_ok w k).
+  { intros NV x g Hg. destruct (HV NV) as [W Hord]. unfold file_gov in Hg. rewrite Co in Hg.
+    destruct (find_coll m x) as [k|] eqn:Hk; [|discriminate]. simpl in Hg. injection Hg as Hg.
+    destruct (sound_out _ _ _ _ G Hk) as (_ & _ & _ & q & Hq & Kq & _).
+    assert (Ho : In x ord).
+    { apply Hord. unfold out_keys. apply in_map_iff. exists (k_pkg k, q). auto. }
+    destruct (loop_ok_visited _ _ _ _ _ _ _ L Ho Hk) as (WO & _). exists k. auto. }
+  assert (Gov : forall x g k, file_gov w x = Some g -> find_coll m x = Some k -> k_first k = g).
+  { intros x g k Hg Hk. unfold file_gov in Hg. rewrite Co, Hk in Hg. simpl in Hg. now injection Hg. }
   destruct c; simpl in HC.
   - (* ListedMissing *) destruct HC as (p & n & Hp & Hn & Hf).
     unfold missing in Mi. rewrite <- not_true_iff_false in Mi. apply Mi.
@@ -613,15 +625,13 @@ Proof.
   - (* PkgLoadError *) destruct HC as (p & Hp & He & X).
     destruct (g_noerr _ _ G _ Hp He) as [F S]. destruct X; congruence.
   - (* UnknownTemplate *) destruct HC as (p & q & Hin & _ & F).
-    destruct (Vis eq_refl _ _ Hin) as (k & Hq & <- & _ & [PF _]).
-    unfold pure_failure in PF. rewrite F in PF. destruct (forallb q_prep_ok (k_reqs k)); discriminate.
+    destruct (Vis eq_refl _ _ Hin) as (k & Hq & _ & _ & Et & [PF _]).
+    unfold pure_failure in PF. rewrite Et, F in PF. destruct (forallb q_prep_ok (k_reqs k)); discriminate.
   - (* MissingRemoteTemplate *) destruct HC as (p & q & Hin & _ & F).
-    destruct (Vis eq_refl _ _ Hin) as (k & Hq & <- & _ & [PF _]).
-    unfold pure_failure in PF. rewrite F in PF. destruct (forallb q_prep_ok (k_reqs k)); discriminate.
-  - (* UnknownFormatter *) destruct HC as [F N].
-    assert (exists p q, In (p, q) (selected_reqs w)) as (p & q & Hin).
-    { destruct (selected_reqs w) as [|[p q] t]; [congruence|]. exists p, q. now left. }
-    destruct (Vis eq_refl _ _ Hin) as (k & Hq & <- & _ & [PF _]).
+    destruct (Vis eq_refl _ _ Hin) as (k & Hq & _ & _ & Et & [PF _]).
+    unfold pure_failure in PF. rewrite Et, F in PF. destruct (forallb q_prep_ok (k_reqs k)); discriminate.
+  - (* UnknownFormatter *) destruct HC as (x & g & Hg & F).
+    destruct (VisG eq_refl _ _ Hg) as (k & _ & <- & [PF _]).
     unfold pure_failure in PF. rewrite F in PF. simpl in PF.
     repeat match type of PF with (if ?b then _ else _) = None => destruct b; try discriminate end.
   - (* ConfigUnreadable *) destruct HC as [H|[H|H]]; congruence.
@@ -634,37 +644,42 @@ Proof.
     apply (g_decided _ _ G _ _ Hd). now apply bad_regex_none.
   - (* CyclicTemplate *) destruct HC as (p & q & Hin & [T|T]).
     + pose proof (g_tstatus _ _ G _ _ Hin) as X. now rewrite T in X.
-    + destruct (Vis eq_refl _ _ Hin) as (k & Hq & <- & _ & [_ X]). now rewrite T in X.
+    + destruct (Vis eq_refl _ _ Hin) as (k & Hq & <- & _ & _ & [_ X]). now rewrite T in X.
   - (* BadTemplatedValue *) destruct HC as (p & q & Hin & [T|T]).
     + pose proof (g_tstatus _ _ G _ _ Hin) as X. now rewrite T in X.
-    + destruct (Vis eq_refl _ _ Hin) as (k & Hq & <- & _ & [_ X]). now rewrite T in X.
-  - (* SchemaMissing *) destruct HC as (p & q & Hin & K & Rq & S).
-    destruct (Vis eq_refl _ _ Hin) as (k & Hq & <- & _ & [PF _]).
-    unfold pure_failure, is_remote in PF. rewrite K, Rq, S in PF. simpl in PF.
+    + destruct (Vis eq_refl _ _ Hin) as (k & Hq & <- & _ & _ & [_ X]). now rewrite T in X.
+  - (* SchemaMissing *) destruct HC as (x & g & Hg & K & Rq & S).
+    destruct (VisG eq_refl _ _ Hg) as (k & Hk & Eg & [PF _]).
+    assert (Et : k_template k = q_template g).
+    { destruct (g_sound _ _ G _ _ Hk) as (Hs & Kx & _). rewrite Eg in Hs, Kx.
+      destruct (g_complete _ _ G _ _ Hs) as (k2 & Hk2 & _ & SG).
+      rewrite Kx, Hk in Hk2. injection Hk2 as <-.
+      unfold same_group in SG. rewrite !andb_true_iff, !seqb_eq in SG. tauto. }
+    unfold pure_failure, is_remote in PF. rewrite Et, Eg, K, Rq, S in PF. simpl in PF.
     repeat match type of PF with (if ?b then _ else _) = None => destruct b; try discriminate end.
-  - (* SchemaReject *) destruct HC as (p & q & Hin & V & D).
-    destruct (Vis eq_refl _ _ Hin) as (k & Hq & <- & _ & [PF _]).
-    unfold pure_failure in PF. rewrite V in PF.
-    assert (X : c_data_ok (p_cfg (k_pkg k)) && forallb q_data_ok (k_reqs k) = false).
-    { destruct D as [D|D]; [now rewrite D|]. rewrite (forallb_false_In _ _ _ Hq D). apply andb_false_r. }
-    rewrite X in PF. simpl in PF.
+  - (* SchemaReject *) destruct HC as (p & q & g & Hin & D & Hg & V).
+    destruct (Vis eq_refl _ _ Hin) as (k & Hq & _ & Hk & Et & [PF _]).
+    rewrite <- (Gov _ _ _ Hg Hk) in V.
+    unfold pure_failure in PF. rewrite Et, V, (forallb_false_In _ _ _ Hq D) in PF. simpl in PF.
     repeat match type of PF with (if ?b then _ else _) = None => destruct b; try discriminate end.
   - (* TemplateSyntax *) destruct HC as (p & q & Hin & F).
-    destruct (Vis eq_refl _ _ Hin) as (k & Hq & <- & _ & [PF _]).
-    unfold pure_failure in PF. rewrite F in PF. simpl in PF.
+    destruct (Vis eq_refl _ _ Hin) as (k & Hq & _ & _ & Et & [PF _]).
+    unfold pure_failure in PF. rewrite Et, F in PF. simpl in PF.
     repeat match type of PF with (if ?b then _ else _) = None => destruct b; try discriminate end.
   - (* TemplateExecution *) destruct HC as (p & q & Hin & F).
-    destruct (Vis eq_refl _ _ Hin) as (k & Hq & <- & _ & [PF _]).
+    destruct (Vis eq_refl _ _ Hin) as (k & Hq & _ & _ & _ & [PF _]).
     unfold pure_failure in PF. rewrite (forallb_false_In _ _ _ Hq F) in PF. simpl in PF.
     repeat match type of PF with (if ?b then _ else _) = None => destruct b; try discriminate end.
-  - (* InvalidGoOutput *) destruct HC as (p & q & Hin & F & N).
-    destruct (Vis eq_refl _ _ Hin) as (k & Hq & <- & Ek & [PF _]).
-    unfold pure_failure in PF. rewrite Ek, F in PF.
-    assert (X : format_ok (w_formatter w) false = false) by (destruct (w_formatter w); simpl; congruence).
+  - (* InvalidGoOutput *) destruct HC as (p & q & g & Hin & F & Hg & N).
+    destruct (Vis eq_refl _ _ Hin) as (k & Hq & _ & Hk & _ & [PF _]).
+    rewrite <- (Gov _ _ _ Hg Hk) in N.
+    unfold pure_failure in PF. rewrite (find_coll_key _ _ _ Hk), F in PF.
+    assert (X : format_ok (q_formatter (k_first k)) false = false)
+      by (destruct (q_formatter (k_first k)); simpl; congruence).
     rewrite X in PF. simpl in PF.
     repeat match type of PF with (if ?b then _ else _) = None => destruct b; try discriminate end.
   - (* PrepareFailure *) destruct HC as (p & q & Hin & F).
-    destruct (Vis eq_refl _ _ Hin) as (k & Hq & <- & _ & [PF _]).
+    destruct (Vis eq_refl _ _ Hin) as (k & Hq & _ & _ & _ & [PF _]).
     unfold pure_failure in PF. rewrite (forallb_false_In _ _ _ Hq F) in PF. discriminate.
   - (* ConflictPackage *) destruct HC as (p1 & q1 & p2 & q2 & H1 & H2 & EP & N).
     destruct (g_complete _ _ G _ _ H1) as (k1 & K1 & _ & S1).
@@ -725,12 +740,12 @@ Proof.
   intros Hn Hc. destruct (run_Inv w ord) as [E | (m & Co & I)]; [congruence|].
   destruct (I q) as [E | [(E1 & _) | (x & k & Hk & Ek & E & _ & [F | [[c F] Fo]])]]; try congruence.
   split; [exists c; congruence|]. exists x.
-  unfold key_path, force_of, file_pkg. rewrite Co, Hk. simpl. rewrite Fo, Ek. auto.
+  unfold key_path, force_of, file_gov. rewrite Co, Hk. simpl. rewrite Fo, Ek. auto.
 Qed.
 
 Lemma loop_noforce w m f0 q n :
   f0 q = Some n ->
-  (forall x k, find_coll m x = Some k -> k_path k = q -> c_force (p_cfg (k_pkg k)) = false) ->
+  (forall x k, find_coll m x = Some k -> k_path k = q -> q_force (k_first k) = false) ->
   forall ord f r f' x k,
   Inv w m f0 f -> find_coll m x = Some k -> k_path k = q ->
   In x ord -> write_loop w m ord f = (r, f') -> r <> FOk.
@@ -758,8 +773,8 @@ Proof.
   intros Hn Kp Hin NF. unfold key_path in Kp.
   destruct (collections w) as [m|] eqn:Co; [|discriminate].
   destruct (find_coll m x) as [k|] eqn:Hk; [|discriminate]. simpl in Kp. injection Kp as Ek.
-  assert (NF' : forall y k', find_coll m y = Some k' -> k_path k' = q -> c_force (p_cfg (k_pkg k')) = false).
-  { intros y k' Hy Ey. specialize (NF y). unfold key_path, force_of, file_pkg in NF.
+  assert (NF' : forall y k', find_coll m y = Some k' -> k_path k' = q -> q_force (k_first k') = false).
+  { intros y k' Hy Ey. specialize (NF y). unfold key_path, force_of, file_gov in NF.
     rewrite Co, Hy in NF. simpl in NF. rewrite Ey in NF. specialize (NF eq_refl). now injection NF. }
   destruct (run_cases w ord) as [H | (m' & r & f1 & Co' & L & _ & _ & _ & H)]; rewrite H; simpl; [auto|].
   rewrite Co in Co'. injection Co' as <-.
